@@ -459,6 +459,32 @@ fn run_op(w: &mut World, op: &Value) -> Value {
                 }
             }
         }
+        "send_tx" => {
+            let on = |b: bool| if b { Flag::Enabled } else { Flag::Disabled };
+            with_state_mut(|s| s.api_access = on(op["access"].as_bool().unwrap_or(true)));
+            let net = match op["request_net"].as_str().unwrap_or("regtest") {
+                "Mainnet" => NetworkInRequest::Mainnet,
+                "mainnet" => NetworkInRequest::mainnet,
+                "Testnet" => NetworkInRequest::Testnet,
+                "testnet" => NetworkInRequest::testnet,
+                "Regtest" => NetworkInRequest::Regtest,
+                _ => NetworkInRequest::regtest,
+            };
+            let mut tx = match op["kind"].as_str().unwrap_or("valid") {
+                "garbage" => vec![0xffu8; 40],
+                "empty" => vec![],
+                "truncated" => { let mut v = valid_tx_bytes(90); v.truncate(v.len() - 3); v }
+                _ => valid_tx_bytes(90),
+            };
+            if let Some(h) = op["hex"].as_str() { tx = hex::decode(h).unwrap(); }
+            for _ in 0..op["trailing"].as_u64().unwrap_or(0) { tx.push(0); }
+            let before = with_state(|s| s.metrics.send_transaction_count);
+            let r = catch_unwind(AssertUnwindSafe(|| block_on(ic_btc_canister::send_transaction(
+                ic_btc_interface::SendTransactionRequest { network: net, transaction: tx.clone() }))));
+            let after = with_state(|s| s.metrics.send_transaction_count);
+            json!({"result": match r { Ok(Ok(())) => "Ok".to_string(), Ok(Err(e)) => format!("{:?}", e), Err(_) => "trap".to_string() },
+                   "count_delta": after - before, "len": tx.len()})
+        }
         "tree" => {
             let hashes = with_state(|s| unstable_blocks::get_block_hashes(&s.unstable_blocks));
             json!({"blocks": hashes.iter().map(|h| block_id_of(w, &h.to_vec())).collect::<Vec<_>>(),
